@@ -148,7 +148,15 @@ class VProcess(object):
         return self.t is not None and not self.t.done and not self.t.killed
 
     def join(self, timeout=None):
-        self.w.s.block_until(lambda: self.t.done or self.t.killed, ('process.join',))
+        s = self.w.s
+        if timeout is None:
+            s.block_until(lambda: self.t.done or self.t.killed, ('process.join',))
+            return
+        # a timed join may expire although the worker would exit eventually (it is descheduled): budgeted environment choice
+        s.block_until(lambda: self.t.done or self.t.killed or s.timer_budget > 0, ('process.join-timed',), timed=True)
+        if not (self.t.done or self.t.killed):
+            s.timer_budget -= 1
+            self.w.clock += timeout
 
     def terminate(self):   # SIGTERM: a worker whose code traps the signal survives
         self.w.s.point(('process.terminate',))
@@ -250,11 +258,11 @@ class BadStr(Exception):
 
 
 
-def run_equalizer(behaviours, prefix, dedicated=True, timeout=2, recycle=5, keep=False, consumer=('drain',), max_steps=6000):
+def run_equalizer(behaviours, prefix, dedicated=True, timeout=2, recycle=5, keep=False, consumer=('drain',), max_steps=6000, timer_budget=0):
     """One execution of the REAL Equalizer.run_comparison over len(behaviours) recordings under schedule `prefix`."""
     from playback.studio.equalizer import Equalizer, EqualityStatus, ComparatorResult, CompareExecutionConfig
     install()
-    s = S.Sched(prefix, trace_files=(), max_steps=max_steps)
+    s = S.Sched(prefix, trace_files=(), max_steps=max_steps, timer_budget=timer_budget)
     w = World(s)
     W[0] = w
     ids = ['r%d' % i for i in range(len(behaviours))]
